@@ -220,6 +220,9 @@ func RunHarness(c *Ctx, w *ws.Workspace, r *report.Run, driver string, units []r
 					r.CaseN(rec.Cell, rec.Outcome, rec.NonTriv, rec.N)
 				case "viol":
 					r.Violate(rec.Cell, rec.Symptom, rec.Detail, map[string]any{"driver": driver, "labels": rec.Labels, "spec": specs[unitOfCell(rec.Cell, g)]})
+				case "cap":
+					r.Exhaustive = false
+					r.CapNote = "some scenarios hit the per-scenario execution cap: " + rec.Detail
 				case "space":
 					r.Sample(map[string]any{"cell": rec.Cell, "points": rec.N, "space": rec.Detail})
 				case "sample":
